@@ -896,6 +896,10 @@ TRANSPARENT = (
 )
 
 
+# `s.as_mut_str()`: the explicit spelling of `&mut *s` (DerefMut) for the string types
+MUT_STR_VIEWS = ("std::string::String::as_mut_str", "smartstring::SmartString::<Mode>::as_mut_str")
+
+
 def is_transparent_call(path):
     if not isinstance(path, str):
         return False
@@ -907,6 +911,8 @@ def is_transparent_call(path):
     if path.endswith("as std::convert::AsRef<str>>::as_ref"):
         return True
     if path in ("smartstring::SmartString::<Mode>::as_str", "std::string::String::as_str", "qualifiers::QualifierKey::as_str"):
+        return True
+    if path in MUT_STR_VIEWS:
         return True
     return False
 
